@@ -80,6 +80,15 @@ fn download_script(ep: u32, path: &[&[u8]], szx: u8, nreq: usize, label: &str) -
     Transfer { ep, code: 1, path: path.iter().map(|s| s.to_vec()).collect(), requests, label: label.to_string() }
 }
 
+/// a download that does not begin at block 0 (a client resuming, or fetching blocks at random)
+fn download_script_from(ep: u32, path: &[&[u8]], szx: u8, start: u32, nreq: usize, label: &str) -> Transfer {
+    let mut t = download_script(ep, path, szx, nreq, label);
+    for (i, r) in t.requests.iter_mut().enumerate() {
+        r.block2 = Some((start + i as u32, false, szx));
+    }
+    t
+}
+
 fn with_query(mut t: Transfer, query: &[&[u8]]) -> Transfer {
     for r in t.requests.iter_mut() {
         for q in query {
@@ -319,6 +328,9 @@ fn sets(nreq: usize, three: bool) -> Vec<SetSpec> {
         SetSpec { name: "long-common-prefix(300B)", transfers: vec![upload_script(1, 3, &[&[b'k'; 300][..], b"1"], 0, nreq, 0, "PUT k..,1"), upload_script(1, 3, &[&[b'k'; 300][..], b"2"], 0, nreq, 0, "PUT k..,2")] },
         // a flattened key with one-byte length prefixes: a 257-byte segment whose length byte wraps to 1
         SetSpec { name: "length-prefix-wrap(257B-segment-vs-[f,a*127,b*127])", transfers: vec![download_script(1, &[&{ let mut v = vec![b'f', 0x7f]; v.extend_from_slice(&[b'a'; 127]); v.push(0x7f); v.extend_from_slice(&[b'b'; 127]); v }[..]], 0, nreq, "GET [257B]"), download_script(1, &[b"f", &[b'a'; 127][..], &[b'b'; 127][..]], 0, nreq, "GET [f,a*127,b*127]")] },
+        // a GET that resumes at a later block next to another method's open block-wise reply on the same path
+        SetSpec { name: "method-differs(get-resuming-at-block-1-vs-post-with-blockwise-reply)", transfers: vec![download_script_from(1, &r, 0, 1, nreq.min(3), "GET r from block 1"), upload_script(1, 2, &r, 0, nreq - fetch, fetch, "POST r")] },
+        SetSpec { name: "method-differs(get-resuming-at-block-2-vs-fetch-with-blockwise-reply)", transfers: vec![download_script_from(1, &r, 0, 2, nreq.min(3), "GET r from block 2"), upload_script(1, 5, &r, 0, nreq - fetch, fetch, "FETCH r")] },
         // segments that are not UTF-8 have no string form; they are still different paths
         SetSpec { name: "non-utf8-segment([ff]-vs-root)", transfers: vec![upload_script(1, 3, &[&[0xff][..]], 0, nreq, 0, "PUT [ff]"), upload_script(1, 3, &none, 0, nreq, 0, "PUT []")] },
         SetSpec { name: "non-utf8-segments([a,fe]-vs-[b,c3 28])", transfers: vec![download_script(1, &[b"a", &[0xfe][..]], 0, nreq, "GET [a,fe]"), download_script(1, &[b"b", &[0xc3, 0x28][..]], 0, nreq, "GET [b,c3 28]")] },
